@@ -109,7 +109,7 @@ func (w *worker) runSmart() {
 							}
 							return ""
 						})
-						w.vet(i, r, true, nil, 0)
+						w.vet(i, r, true, true)
 						pause(op.P)
 					}
 				}
@@ -118,7 +118,7 @@ func (w *worker) runSmart() {
 		w.runThreads(bodies)
 		// every start is matched by a stop that returns
 		w.tr.phase.Store("final")
-		w.vet(n, w.do(n, "final-stop", true, func() string { _ = sr.Stop(); return "" }), true, nil, 0)
+		w.vet(n, w.do(n, "final-stop", true, func() string { _ = sr.Stop(); return "" }), true, true)
 		cancel()
 		if w.tr.windowsOverlap(n) {
 			w.mu.Lock()
